@@ -51,5 +51,14 @@ class SSEConfig(metaclass=abc.ABCMeta):
             if config_dict.get(param_field, -1) == -1:
                 raise ValueError("Parameter {} is missing".format(param_field))
 
+    @staticmethod
+    def check_param_positive_int(param_field_to_check: list, config_dict: dict):
+        """A length that keys or labels are cut to must be a positive integer:
+        with length 0 every keyword gets the same (empty) key or label."""
+        for param_field in param_field_to_check:
+            value = config_dict.get(param_field)
+            if isinstance(value, bool) or not isinstance(value, int) or value < 1:
+                raise ValueError("Parameter {} must be a positive integer".format(param_field))
+
     def __getitem__(self, item):
         return getattr(self, item)
